@@ -14,7 +14,7 @@
    operations, each naming its arguments by position in the growing pool of meshes. *)
 From Coq Require Import List NArith ZArith Bool Arith.
 From PF Require Import Gen.Closed Gen.Sphere Gen.Hemisphere Gen.Cylinder Gen.Cube.
-From PF Require Import Mesh.Pure Mesh.PureLemmas Mesh.PureProofs Mesh.GenWf.
+From PF Require Import Mesh.Pure Mesh.PureLemmas Mesh.PureProofs Mesh.GenWf Mesh.GenIdx Mesh.GenIdxProofs.
 Import ListNotations.
 Close Scope N_scope.
 Open Scope nat_scope.
@@ -91,8 +91,9 @@ Theorem repeat_wf : forall pos m ts, wf m ->
 Proof. exact repeat_mesh_wf. Qed.
 Print Assumptions repeat_wf.
 
-(* generators (partial: the primitives whose index formulas are modelled in Gen/*.v; extrusions,
-   marching cubes and triangulation are judged by wfb on every implementation output only).
+(* generators (partial: the primitives whose index formulas are modelled in Gen/*.v and, below, in
+   Mesh/GenIdx.v; extrude.Line/Shape, marching cubes, triangulation and the repeat.* transform
+   generators are judged by wfb on every implementation output only — repeat.Mesh itself is repeat_wf).
    [gen_mesh nv idx ks mats vals]: triangle mesh with vertex count nv, index list idx and one array
    of length nv under every key of ks.  For EVERY accepted count: *)
 Theorem wf_generators_partial : forall ks mats vals, ssortedb ks = true -> ks <> [] ->
@@ -112,6 +113,19 @@ Proof.
   - apply (cube_mesh_wf ks mats vals Hs Hk).
 Qed.
 Print Assumptions wf_generators_partial.
+
+(* the fan of primitives.Circle (sides >= 1) and primitives.Cone (sides >= 3), and the tube of
+   extrude.polygon / extrude.Polygon / extrude.Circle.Extrude for EVERY side count, path length and
+   winding-flip table (Mesh/GenIdx.v; index lists compared with the implementation's on every run) *)
+Theorem wf_generators_fan_tube : forall ks mats vals, ssortedb ks = true -> ks <> [] ->
+  (forall n, 1 <= n -> wf (gen_mesh_nat (fan_nverts n) (fan_idx n) ks mats vals)) /\
+  (forall flip sides points, wf (gen_mesh_nat (tube_nverts sides points) (tube_idx flip sides points) ks mats vals)).
+Proof.
+  intros ks mats vals Hs Hk. split; intros.
+  - apply fan_mesh_wf; assumption.
+  - apply tube_mesh_wf; assumption.
+Qed.
+Print Assumptions wf_generators_fan_tube.
 
 (* non-vacuity: a mesh with an unreferenced vertex (3), duplicated vertices (0 and 4 carry the same
    values) and two attributes is well-formed; a history of six operations on it (weld, append with
